@@ -11,125 +11,425 @@ import (
 )
 
 // ---------------------------------------------------------------------------
-// C13.nilret: a helper that can answer nil is tested before its answer is used
+// C13.nilret: a value that is nil when the operation that produced it failed is not used before the
+// failure has been excluded
 //
-// Rule template: a function or closure of jq-callable code with a single pointer result that returns
-// the constant nil on some path and something else on another ("unknown name -> nil"). At every call
-// site whose callee resolves to it (static call, or a local function value bound once), each use of the
-// result that dereferences it (method receiver, field access, load, argument to a function outside
-// fq) is dominated by a comparison of the result with nil. A nil dereference is a SIGSEGV-class
-// runtime panic, not a catchable jq error.
+// A nil pointer dereference / a method call on a nil interface is a SIGSEGV-class runtime panic, not a
+// catchable jq error. In jq-callable code three kinds of values are nil exactly when something a jq
+// program controls went wrong (unknown name, mistyped value, failing option object):
+//
+//   helper   the single pointer / interface result of an fq helper that returns the constant nil on some
+//            path and something else on another ("unknown name -> nil": hashFn, strEncoding ...)
+//   errpair  a pointer / interface result that comes together with an error (v, err := f(...)), where f
+//            is a function whose body returns nil in that position on some path, or a dynamic callee
+//            (func value, interface method), for which the Go convention "nil unless err == nil" holds
+//   commaok  the value of a two-result type assertion v, ok := x.(T) with T a pointer or interface
+//
+// Obligation, per producing site: every use that dereferences the value (field access, load, method
+// receiver, interface method call, being passed on in a pointer / non-empty interface parameter) is
+// dominated by a test that excludes the failure: v != nil, err == nil of the same call, or ok of the
+// same assertion (no-return arms count as in all guard reasoning of this checker).
+
+type c13NilSrc struct {
+	val   ssa.Value // the maybe-nil value
+	fail  ssa.Value // err / ok of the same operation (nil if none)
+	okVal bool      // fail is a bool that is true on success (comma-ok) rather than an error
+	kind  string    // helper | errpair | commaok
+	what  string    // description of the producer
+	at    ssa.Instruction
+}
 
 func c13NilRet(r *fw.Run, p *fw.Program, scope []*ssa.Function) {
-	ru := r.Rule("C13.nilret", "in jq-callable code, the result of a helper with a single pointer result that returns constant nil on some path is compared with nil before any use that dereferences it (method receiver, field, load, argument to non-fq code), at every call site that resolves to the helper (no such helper exists in jq-callable code today: the rule arms when one is introduced; positive control c13-nilret-unknown-encoding)", 0)
-	inScope := map[*ssa.Function]bool{}
-	for _, f := range scope {
-		inScope[f] = true
-	}
-	mayNil := func(f *ssa.Function) bool {
-		if f == nil || f.Blocks == nil || f.Signature.Results().Len() != 1 {
-			return false
-		}
-		if _, ok := f.Signature.Results().At(0).Type().Underlying().(*types.Pointer); !ok {
-			return false
-		}
-		hasNil, hasOther := false, false
-		fw.EachInstr(f, func(ins ssa.Instruction) {
-			if ret, ok := ins.(*ssa.Return); ok && len(ret.Results) == 1 {
-				if c, ok := ret.Results[0].(*ssa.Const); ok && c.IsNil() {
-					hasNil = true
-				} else {
-					hasOther = true
-				}
-			}
-		})
-		return hasNil && hasOther
-	}
-	resolve := func(fn *ssa.Function, c ssa.CallInstruction) *ssa.Function {
-		if cal := c.Common().StaticCallee(); cal != nil {
-			return cal
-		}
-		v := c.Common().Value
-		if u, ok := v.(*ssa.UnOp); ok && u.Op == token.MUL {
-			v = u.X
-		}
-		if fv, ok := v.(*ssa.FreeVar); ok {
-			vals, _ := freeVarBindings(fn, fv)
-			if len(vals) != 1 {
-				return nil
-			}
-			bv := vals[0]
-			if al, ok := bv.(*ssa.Alloc); ok && al.Referrers() != nil {
-				// captured by reference: single store of a function value
-				var only ssa.Value
-				n := 0
-				for _, rf := range *al.Referrers() {
-					if st, ok := rf.(*ssa.Store); ok && st.Addr == ssa.Value(al) {
-						only = st.Val
-						n++
-					}
-				}
-				if n != 1 {
-					return nil
-				}
-				bv = only
-			}
-			switch x := bv.(type) {
-			case *ssa.Function:
-				return x
-			case *ssa.MakeClosure:
-				f, _ := x.Fn.(*ssa.Function)
-				return f
-			}
-		}
-		return nil
-	}
+	ru := r.Rule("C13.nilret", "in jq-callable code a pointer / interface value that is nil when its producer failed (result of an fq helper that returns constant nil on some path; result paired with an error; value of a comma-ok type assertion) is dereferenced (field, load, method receiver, interface call, passed on in a pointer/interface parameter) only where a dominating test excludes the failure (v != nil, err == nil, ok); merged variables are followed edge by edge, captured variables into the closure", 150)
 	for _, fn := range scope {
+		if fn.TypeParams().Len() > 0 && len(fn.TypeArgs()) == 0 {
+			continue
+		}
 		ord := map[string]int{}
-		for _, c := range fw.CallsIn(fn) {
-			callee := resolve(fn, c)
-			if callee == nil || !fw.InFq(callee) || !mayNil(callee) {
-				continue
-			}
-			res, ok := c.(*ssa.Call)
-			if !ok || res.Referrers() == nil {
-				continue
-			}
-			cn := fw.ShortFn(callee)
-			ord[cn]++
-			key := fmt.Sprintf("%s|%s#%d", fw.ShortFn(fn), cn, ord[cn])
+		for _, src := range c13NilSources(fn) {
+			base := src.kind + ":" + src.what
+			ord[base]++
+			key := fmt.Sprintf("%s|%s#%d", fw.ShortFn(fn), base, ord[base])
 			var badUse ssa.Instruction
 			what := ""
-			for _, use := range *res.Referrers() {
-				w := c13Derefs(use, res)
+			for _, use := range c13UsesThroughCopies(src) {
+				w := c13Derefs(use.ins, use.val)
 				if w == "" {
 					continue
 				}
-				checked := false
-				for _, g := range fw.Guards(use.Block()) {
-					if b, ok := g.Cond.(*ssa.BinOp); ok && (b.X == ssa.Value(res) || b.Y == ssa.Value(res)) {
-						other := b.Y
-						if b.Y == ssa.Value(res) {
-							other = b.X
-						}
-						if oc, ok := other.(*ssa.Const); ok && oc.IsNil() {
-							if b.Op == token.NEQ && g.True || b.Op == token.EQL && !g.True {
-								checked = true
-							}
-						}
-					}
+				if c13FailureExcluded(fw.Guards(use.ins.Block()), src, use.val) {
+					continue
 				}
-				if !checked && badUse == nil {
-					badUse, what = use, w
+				if badUse == nil {
+					badUse, what = use.ins, w
 				}
 			}
-			if badUse != nil {
-				ru.Fail(key, p.Rel(badUse.Pos()), cn+" returns nil on some path, but its result is used as "+what+" without a dominating nil test: a nil dereference is a runtime panic that ends fq")
-			} else {
-				ru.Ok(key, p.Rel(c.Pos()), "result tested against nil before it is dereferenced (or never dereferenced here)")
+			if badUse == nil {
+				ru.Ok(key, p.Rel(src.at.Pos()), "every dereferencing use is dominated by a test that excludes the failure (or there is none)")
+				continue
+			}
+			if reason, ok := c13NilExceptions[key]; ok {
+				ru.Except(key, p.Rel(badUse.Pos()), reason)
+				continue
+			}
+			how := "without a dominating nil / error test"
+			if src.kind == "commaok" {
+				how = "without a dominating test of ok (or of the value against nil)"
+			}
+			ru.Fail(key, p.Rel(badUse.Pos()), "the result of "+src.what+" is nil when it failed, but it is used as "+what+" "+how+": a nil dereference is a runtime panic that ends fq instead of a catchable jq error")
+		}
+	}
+}
+
+// c13NilExceptions: key -> reason. Sites where reading shows the value cannot be nil at the use.
+var c13NilExceptions = map[string]string{}
+
+// c13NilSources enumerates the maybe-nil producers in fn.
+func c13NilSources(fn *ssa.Function) []c13NilSrc {
+	var out []c13NilSrc
+	fw.EachInstr(fn, func(ins ssa.Instruction) {
+		switch x := ins.(type) {
+		case *ssa.TypeAssert:
+			if !x.CommaOk || !c13Nilable(x.AssertedType) {
+				return
+			}
+			v, ok := c13Extract(x, 0), c13Extract(x, 1)
+			if v == nil {
+				return
+			}
+			out = append(out, c13NilSrc{val: v, fail: ok, okVal: true, kind: "commaok", what: "assertion to " + shortType(x.AssertedType), at: x})
+		case *ssa.Call:
+			res := x.Common().Signature().Results()
+			callee := c13ResolveCallee(fn, x)
+			name := "a dynamic call"
+			if callee != nil {
+				name = callee.String()
+				if fw.InFq(callee) {
+					name = fw.ShortFn(callee)
+				}
+			} else if x.Common().IsInvoke() {
+				name = "interface method " + x.Common().Method.Name()
+			}
+			switch {
+			case res.Len() == 1:
+				if callee == nil || !fw.InFq(callee) || !c13Nilable(res.At(0).Type()) || !c13MayReturnNil(callee, 0, 0) || !c13ReturnsNonNil(callee, 0) {
+					return
+				}
+				out = append(out, c13NilSrc{val: x, kind: "helper", what: name, at: x})
+			case res.Len() >= 2 && types.Identical(res.At(res.Len()-1).Type(), types.Universe.Lookup("error").Type()):
+				errV := c13Extract(x, res.Len()-1)
+				for i := 0; i < res.Len()-1; i++ {
+					if !c13Nilable(res.At(i).Type()) {
+						continue
+					}
+					v := c13Extract(x, i)
+					if v == nil {
+						continue
+					}
+					if callee != nil && callee.Blocks != nil && !c13MayReturnNil(callee, i, 0) {
+						continue
+					}
+					out = append(out, c13NilSrc{val: v, fail: errV, kind: "errpair", what: name, at: x})
+				}
+			}
+		}
+	})
+	return out
+}
+
+// c13Nilable: pointer, or an interface with methods other than error (a nil `any` is jq null, a nil
+// error is success).
+func c13Nilable(t types.Type) bool {
+	switch u := t.Underlying().(type) {
+	case *types.Pointer:
+		return true
+	case *types.Interface:
+		if u.Empty() || types.Identical(t, types.Universe.Lookup("error").Type()) {
+			return false
+		}
+		return true
+	}
+	return false
+}
+
+func c13Extract(tuple ssa.Value, idx int) ssa.Value {
+	if tuple.Referrers() == nil {
+		return nil
+	}
+	for _, u := range *tuple.Referrers() {
+		if e, ok := u.(*ssa.Extract); ok && e.Index == idx {
+			return e
+		}
+	}
+	return nil
+}
+
+// c13ResolveCallee: static callee, or the single function value bound to a called local / captured variable.
+func c13ResolveCallee(fn *ssa.Function, c ssa.CallInstruction) *ssa.Function {
+	if cal := c.Common().StaticCallee(); cal != nil {
+		return cal
+	}
+	if c.Common().IsInvoke() {
+		return nil
+	}
+	v := c.Common().Value
+	if u, ok := v.(*ssa.UnOp); ok && u.Op == token.MUL {
+		v = u.X
+	}
+	single := func(al *ssa.Alloc) ssa.Value {
+		if al.Referrers() == nil {
+			return nil
+		}
+		var only ssa.Value
+		n := 0
+		for _, rf := range *al.Referrers() {
+			if st, ok := rf.(*ssa.Store); ok && st.Addr == ssa.Value(al) {
+				only = st.Val
+				n++
+			}
+		}
+		if n != 1 {
+			return nil
+		}
+		return only
+	}
+	var bv ssa.Value
+	switch x := v.(type) {
+	case *ssa.FreeVar:
+		vals, _ := freeVarBindings(fn, x)
+		if len(vals) != 1 {
+			return nil
+		}
+		bv = vals[0]
+		if al, ok := bv.(*ssa.Alloc); ok {
+			bv = single(al)
+		}
+	case *ssa.Alloc:
+		bv = single(x)
+	case *ssa.MakeClosure, *ssa.Function:
+		bv = x
+	}
+	switch x := bv.(type) {
+	case *ssa.Function:
+		return x
+	case *ssa.MakeClosure:
+		f, _ := x.Fn.(*ssa.Function)
+		return f
+	}
+	return nil
+}
+
+// c13MayReturnNil: some return of f yields the constant nil in position i (through phis and, to a
+// small depth, through forwarded results of other calls).
+func c13MayReturnNil(f *ssa.Function, i int, depth int) bool {
+	if f == nil || f.Blocks == nil || depth > 3 {
+		return false
+	}
+	found := false
+	var visit func(v ssa.Value, seen map[ssa.Value]bool)
+	visit = func(v ssa.Value, seen map[ssa.Value]bool) {
+		if found || seen[v] {
+			return
+		}
+		seen[v] = true
+		switch x := v.(type) {
+		case *ssa.Const:
+			if x.IsNil() {
+				found = true
+			}
+		case *ssa.Phi:
+			for _, e := range x.Edges {
+				visit(e, seen)
+			}
+		case *ssa.Extract:
+			if c, ok := x.Tuple.(*ssa.Call); ok {
+				if cal := c.Common().StaticCallee(); cal != nil && c13MayReturnNil(cal, x.Index, depth+1) {
+					found = true
+				}
+			}
+		case *ssa.Call:
+			if cal := x.Common().StaticCallee(); cal != nil && x.Common().Signature().Results().Len() == 1 && c13MayReturnNil(cal, 0, depth+1) {
+				found = true
+			}
+		case *ssa.UnOp:
+			// load of a local result variable (named results / `var x *T` assigned on some paths only)
+			if al, ok := x.X.(*ssa.Alloc); ok && x.Op == token.MUL && al.Referrers() != nil {
+				for _, rf := range *al.Referrers() {
+					if st, ok := rf.(*ssa.Store); ok && st.Addr == ssa.Value(al) {
+						visit(st.Val, seen)
+					}
+				}
 			}
 		}
 	}
+	for _, ret := range returnsOf(f) {
+		if i < len(ret.Results) {
+			visit(ret.Results[i], map[ssa.Value]bool{})
+		}
+	}
+	return found
+}
+
+// c13ReturnsNonNil: some return of f yields something that is not the constant nil in position i.
+func c13ReturnsNonNil(f *ssa.Function, i int) bool {
+	for _, ret := range returnsOf(f) {
+		if i < len(ret.Results) {
+			if c, ok := ret.Results[i].(*ssa.Const); !ok || !c.IsNil() {
+				return true
+			}
+		}
+	}
+	return false
+}
+
+type c13Use struct {
+	ins ssa.Instruction
+	val ssa.Value // the (copy of the) value as it appears in ins
+}
+
+// c13UsesThroughCopies: the instructions using v, following interface-to-interface conversions
+// (ChangeInterface / ChangeType keep nil-ness; MakeInterface of a nil pointer is a typed nil whose
+// method calls dereference it just the same).
+func c13UsesThroughCopies(src c13NilSrc) []c13Use {
+	v := src.val
+	var out []c13Use
+	seen := map[ssa.Value]bool{}
+	var walk func(v ssa.Value)
+	walk = func(v ssa.Value) {
+		if seen[v] || v.Referrers() == nil {
+			return
+		}
+		seen[v] = true
+		for _, u := range *v.Referrers() {
+			out = append(out, c13Use{u, v})
+			switch x := u.(type) {
+			case *ssa.ChangeInterface:
+				walk(x)
+			case *ssa.ChangeType:
+				walk(x)
+			case *ssa.Phi:
+				// `var f T; if .. { f, err = open() }; f.Use()`: the merged value is ours on the paths through the
+				// edges that carry it; where the failure is already excluded on such an edge nothing more is owed
+				follow := false
+				for k, e := range x.Edges {
+					if e != v || k >= len(x.Block().Preds) {
+						continue
+					}
+					pred := x.Block().Preds[k]
+					gs := fw.Guards(pred)
+					if ifi, ok := pred.Instrs[len(pred.Instrs)-1].(*ssa.If); ok && len(pred.Succs) == 2 && pred.Succs[0] != pred.Succs[1] {
+						gs = append(gs, fw.Guard{Cond: ifi.Cond, True: pred.Succs[0] == x.Block(), If: ifi})
+					}
+					if !c13FailureExcluded(gs, src, v) {
+						follow = true
+					}
+				}
+				if follow {
+					walk(x)
+				}
+			case *ssa.Store:
+				// spilled local (captured by a closure): written once, read back in the same function
+				if al, ok := x.Addr.(*ssa.Alloc); ok && x.Val == v && c13SingleStore(al) {
+					for _, r := range *al.Referrers() {
+						if ld, ok := r.(*ssa.UnOp); ok && ld.Op == token.MUL && ld.X == ssa.Value(al) {
+							walk(ld)
+						}
+						if mc, ok := r.(*ssa.MakeClosure); ok {
+							out = append(out, c13Use{mc, al})
+						}
+					}
+				}
+			}
+		}
+	}
+	walk(v)
+	return out
+}
+
+func c13SingleStore(al *ssa.Alloc) bool {
+	if al.Referrers() == nil {
+		return false
+	}
+	n := 0
+	for _, r := range *al.Referrers() {
+		if st, ok := r.(*ssa.Store); ok && st.Addr == ssa.Value(al) {
+			n++
+		}
+	}
+	return n == 1
+}
+
+// c13LoadedFrom: v, or (when v is a load of a local variable) the value most recently stored into that
+// variable in the same block before the load.
+func c13LoadedFrom(v ssa.Value) ssa.Value {
+	ld, ok := v.(*ssa.UnOp)
+	if !ok || ld.Op != token.MUL {
+		return v
+	}
+	al, ok := ld.X.(*ssa.Alloc)
+	if !ok {
+		return v
+	}
+	var last ssa.Value
+	for _, ins := range ld.Block().Instrs {
+		if ins == ssa.Instruction(ld) {
+			break
+		}
+		if st, ok := ins.(*ssa.Store); ok && st.Addr == ssa.Value(al) {
+			last = st.Val
+		}
+	}
+	if last != nil {
+		return last
+	}
+	return v
+}
+
+// c13FailureExcluded: the given guards (the dominating tests at a block, or those of an edge) exclude the failure of src.
+func c13FailureExcluded(guards []fw.Guard, src c13NilSrc, used ssa.Value) bool {
+	isNilConst := func(v ssa.Value) bool {
+		c, ok := v.(*ssa.Const)
+		return ok && c.IsNil()
+	}
+	for _, g := range guards {
+		g = g.Normalize()
+		if src.okVal && src.fail != nil && g.Cond == src.fail && g.True {
+			return true
+		}
+		bo, ok := g.Cond.(*ssa.BinOp)
+		if !ok || (bo.Op != token.NEQ && bo.Op != token.EQL) {
+			continue
+		}
+		var other, subject ssa.Value
+		switch {
+		case isNilConst(bo.Y):
+			subject, other = bo.X, bo.Y
+		case isNilConst(bo.X):
+			subject, other = bo.Y, bo.X
+		default:
+			continue
+		}
+		_ = other
+		subject = c13LoadedFrom(subject)
+		if ph, ok := subject.(*ssa.Phi); ok {
+			// a merged err / value variable: the test speaks about our operation on the paths that come from it
+			for _, e := range ph.Edges {
+				if e == src.val || e == used || (src.fail != nil && e == src.fail) {
+					subject = e
+					break
+				}
+			}
+		}
+		nonNil := bo.Op == token.NEQ && g.True || bo.Op == token.EQL && !g.True
+		isNil := !nonNil
+		if (subject == src.val || subject == used) && nonNil {
+			return true
+		}
+		if !src.okVal && src.fail != nil && subject == src.fail && isNil {
+			return true
+		}
+	}
+	return false
 }
 
 // c13Derefs: does `use` dereference v? Returns a description or "".
@@ -143,25 +443,56 @@ func c13Derefs(use ssa.Instruction, v ssa.Value) string {
 		if x.Op == token.MUL && x.X == v {
 			return "the operand of a load"
 		}
+	case *ssa.MakeClosure:
+		// the closure will use the value later, when no test of this operation's outcome is in sight any more
+		for _, b := range x.Bindings {
+			if b == v {
+				return "a variable captured by a closure"
+			}
+		}
 	case ssa.CallInstruction:
 		cc := x.Common()
+		if cc.IsInvoke() && cc.Value == v {
+			return "the receiver of interface method " + cc.Method.Name()
+		}
+		sig := cc.Signature()
 		for i, a := range cc.Args {
 			if a != v {
 				continue
 			}
 			cal := cc.StaticCallee()
-			if cal == nil {
-				return "an argument of a dynamic call"
-			}
-			if cal.Signature.Recv() != nil && i == 0 {
+			if cal != nil && cal.Signature.Recv() != nil && i == 0 {
 				if !fw.InFq(cal) {
 					return "the receiver of " + cal.String()
 				}
 				return "the receiver of " + fw.ShortFn(cal)
 			}
+			// parameter type: a pointer / non-empty interface parameter receives the value to use it
+			pi := i
+			if cal != nil && cal.Signature.Recv() != nil {
+				pi = i - 1
+			}
+			var pt types.Type
+			if sig != nil && pi >= 0 {
+				switch {
+				case pi < sig.Params().Len()-1 || (pi == sig.Params().Len()-1 && !sig.Variadic()):
+					pt = sig.Params().At(pi).Type()
+				case sig.Variadic() && sig.Params().Len() > 0:
+					if sl, ok := sig.Params().At(sig.Params().Len() - 1).Type().Underlying().(*types.Slice); ok {
+						pt = sl.Elem()
+					}
+				}
+			}
+			if pt == nil || !c13Nilable(pt) {
+				continue
+			}
+			if cal == nil {
+				return "an argument of a dynamic call"
+			}
 			if !fw.InFq(cal) {
 				return "an argument of " + cal.String()
 			}
+			return "an argument of " + fw.ShortFn(cal)
 		}
 	}
 	return ""
